@@ -5,8 +5,10 @@
    prop_case : executable form of the lifecycle property evaluated along the model run. *)
 From AM Require Export Base.Prelude Model.Matchers Model.Silence.
 
-Inductive xop := XOp (o : op) | XDump.
-Inductive xout := XOut (o : out) | XDumped (st_ids mi_ids : list string) (vi_ : list (Z * string)) (ver_ : Z).
+(* XMarshal: the records Silences.MarshalBinary writes (the full state of a push/pull exchange), as a set *)
+Inductive xop := XOp (o : op) | XDump | XMarshal.
+Inductive xout := XOut (o : out) | XDumped (st_ids mi_ids : list string) (vi_ : list (Z * string)) (ver_ : Z)
+  | XMarshalled (recs : list wire).
 
 Record case := mkCase { k_cfg : cfg; k_ext : ext_table; k_hist : list (Z * xop * xout) }.
 
@@ -17,6 +19,8 @@ Definition xout_eqb (model impl : xout) : bool :=
   match model, impl with
   | XOut a, XOut b => beq a b
   | XDumped s1 m1 v1 n1, XDumped s2 m2 v2 n2 => same_set s1 s2 && same_set m1 m2 && beq v1 v2 && (n1 =? n2)
+  | XMarshalled r1, XMarshalled r2 =>
+      (length r1 =? length r2)%nat && forallb (fun w => bool_decide (w ∈ r2)) r1 && forallb (fun w => bool_decide (w ∈ r1)) r2
   | _, _ => false
   end.
 
@@ -24,6 +28,7 @@ Definition xstep (c : cfg) (x : ext) (S : store) (now : Z) (o : xop) : store * x
   match o with
   | XOp o => let '(S', y) := step c x S now o in (S', XOut y)
   | XDump => let '(a, b, v, n) := dump S in (S, XDumped a b v n)
+  | XMarshal => (S, XMarshalled (map (fun kv => encode_rec (snd kv)) (map_to_list (st S))))
   end.
 
 Fixpoint xrun (c : cfg) (x : ext) (S : store) (h : list (Z * xop)) : list xout :=
@@ -82,7 +87,7 @@ Fixpoint hist_ok (c : cfg) (x : ext) (S : store) (h : list (Z * xop)) : bool :=
   | (now, XOp o) :: r =>
       let S' := fst (step c x S now o) in
       (negb (is_local o) || step_ok c S now o S') && hist_ok c x S' r
-  | (_, XDump) :: r => hist_ok c x S r
+  | (_, XDump) :: r | (_, XMarshal) :: r => hist_ok c x S r
   end.
 
 Definition prop_case (k : case) : bool :=
